@@ -333,8 +333,8 @@ def mask_rule(ctx):
                 for t in targets:
                     if isinstance(t, ast.Name):
                         tag.pop(t.id, None)
-    if n_stmts < 40:
-        raise AnalysisIncomplete("BM-MASK: %d masked statements found (< 40 confirmed by hand)" % n_stmts)
+    if n_stmts < 30:
+        raise AnalysisIncomplete("BM-MASK: %d masked statements found (< 30; the count on the pinned tree is larger, the floor leaves room for merged call sites confirmed by hand)" % n_stmts)
     return res
 
 
@@ -490,9 +490,18 @@ def eval_stats_rule(ctx):
     return r
 
 
+def lead_rule(ctx):
+    """LEAD-LAYOUT (shared with C04 / C05 / C18): a merged [rows x samples] axis is built, combined and split
+    in one order -- otherwise the samples returned for context row i are drawn with other rows' parameters,
+    i.e. a row's result depends on the rest of the batch."""
+    from .layout import layout_rule
+
+    return layout_rule(ctx)
+
+
 register(
     "C12",
-    [reduce_rule, mask_rule, rows_rule, eval_stats_rule, rng_rule],
+    [reduce_rule, mask_rule, rows_rule, eval_stats_rule, rng_rule, lead_rule],
     "BM-REDUCE: taint analysis of every given-rows entry point (forward/inverse of every Transform, log_prob/_log_prob/"
     "transform_to_noise of every Distribution, forward/log_prob of the other modules, the spline functions) under the scenario "
     "self.training == False: a reduction with no dim or a constant dim containing 0 (and sum_except_batch(num_batch_dims=0)) of "
